@@ -545,6 +545,7 @@ static void exec_op(const Op &op, bool incb) {
 		if (sl.fin_requested && !sl.fin_ran) break;	// must wait for the finalizer
 		tr("api free ev%d", s);
 		if (m.ph == evm::Model::INCB && m.cur.kind == 0 && m.cur.idx == sl.midx) probe("free-inside-own-callback");
+		if (m.pending(sl.midx, ~0, nullptr)) probe("free-pending-or-active");
 		APIV(event_free(sl.ev));
 		m.free_ev(sl.midx);
 		sl.ev = nullptr;
@@ -908,6 +909,8 @@ static void execute(const Plan &p) {
 		else if (mon::locks_enabled && mon::held() != 0)
 			violation("C08.lock-held-at-end", "%d lock acquisition(s) still held at the end of the run", mon::held());
 	}
+	if (!stop() && p.prop == "C10")
+		G.nontrivial = G.cnt.count("probe.finalize") || G.cnt.count("probe.free-inside-own-callback") || G.cnt.count("probe.base-free-with-once-pending") || G.cnt.count("probe.base-free-with-finalizer-pending") || G.cnt.count("probe.free-pending-or-active");
 	R = nullptr;
 }
 
